@@ -18,6 +18,7 @@ import IsoVerif.Driver.C16
 import IsoVerif.Driver.C12
 import IsoVerif.Driver.C07
 import IsoVerif.Driver.C11
+import IsoVerif.Driver.C01
 
 namespace IsoVerif.Driver
 
@@ -44,5 +45,6 @@ def allOps : List (String × Handler) :=
   ++ prefixOps "C12" C12.ops
   ++ prefixOps "C07" C07.ops
   ++ prefixOps "C11" C11.ops
+  ++ prefixOps "C01" C01.ops
 
 end IsoVerif.Driver
